@@ -360,6 +360,20 @@ func childC12(a []string) string {
 			time.Sleep(time.Duration(r.Intn(40)) * time.Millisecond)
 		}
 		time.Sleep(100 * time.Millisecond)
+	case "terminate-other":
+		// terminate requests that name another object than the one they are sent to: wrong object ids — all refused
+		c, err := w.rawConn()
+		if err != nil {
+			return "setup-error:" + err.Error()
+		}
+		go c12Drain(c, 3*time.Second)
+		for i := 0; i < 60; i++ {
+			svc := uint32(r.Pick(1, 2, 3))
+			named := uint32(r.Pick(2, 3, 7, 1000, 0x7FFFFFFF, 0x80000000, 0x80000001, 0xFFFFFFFF, 1<<30))
+			typ := uint8(r.Pick(int(qnet.Call), int(qnet.Call), int(qnet.Post)))
+			c12Frame(c, typ, svc, 1, 3, uint32(100+i), le32(named))
+		}
+		time.Sleep(200 * time.Millisecond)
 	case "deep-signature":
 		// a dynamic value whose signature is megabytes of brackets (a message may carry 10 MB): every object
 		// reads the argument of `property` as a value
@@ -434,7 +448,7 @@ func runC12(r *Rand, tier string, o *Out) {
 	if tier == "thorough" {
 		per = 12
 	}
-	for _, sc := range []string{"valid", "subscriptions", "raw", "lengths", "flood-reading", "flood-posts", "terminate-busy", "deep-signature", "disconnects"} {
+	for _, sc := range []string{"valid", "subscriptions", "raw", "lengths", "flood-reading", "flood-posts", "terminate-busy", "terminate-other", "deep-signature", "disconnects"} {
 		for i := 0; i < per; i++ {
 			line := fmt.Sprintf("c12.run %s %d", sc, r.U64()>>1)
 			if out := o.Do("P", line, true); out != "ok" {
